@@ -5,7 +5,7 @@ generate(outdir) writes shapes_NN.cpp translation units plus shapes.json (metada
 reference model needs: bounds, clause counts, file/line/text of every slot)."""
 import json, os, random, itertools, hashlib
 
-GEN_VERSION = 5
+GEN_VERSION = 6
 INF = -1
 
 LIMS = {
@@ -83,7 +83,8 @@ def chain(s):
     macro, limtxt, L, H, rt = LIMS[s['lim']]
     withs = [('.LR_WITH' if s['wlr'] else '.WITH') + '(H::with(p,%d,_%d))' % (i, 2 if s['fn'] == 'h' else 1)
              for i in range(s['nw'])]
-    ses = [('.LR_SIDE_EFFECT' if s['slr'] else '.SIDE_EFFECT') + '(H::se(p,%d,_1))' % i for i in range(s['ns'])]
+    sefn = 'H::sew' if s['fn'] == 'r' else 'H::se'   # r(int&): the side effect may write through the reference parameter
+    ses = [('.LR_SIDE_EFFECT' if s['slr'] else '.SIDE_EFFECT') + '(%s(p,%d,_1))' % (sefn, i) for i in range(s['ns'])]
     if s['cord'] == 'ws':
         mid = withs + ses
     elif s['cord'] == 'sw':
